@@ -111,6 +111,10 @@ def _persist_case(ti, pre, mutate, cache):
             pr.open_job(copy.deepcopy(want)).init()
             if _mut_steps(fs):
                 problems.append(("second init() wrote", _mut_steps(fs)))
+            job.init(force=True)                                     # force only matters for an invalid file: a valid one is never rewritten
+            pr.open_job(copy.deepcopy(want)).init(force=True)
+            if _mut_steps(fs):
+                problems.append(("init(force=True) rewrote a valid file", _mut_steps(fs)))
             if cache:
                 pr.update_cache()
             # reopen in a fresh session
